@@ -163,8 +163,9 @@ Clauses(e) ==
     stmt \o << <<"model:closed", f.c.done = (e.closed # "") /\ (f.c.done => f.c.err = e.closed)>>,
                <<"model:events", f.ok>>,
                <<"model:meaning", MeaningOk(e)>>,
-               \* the end of a stream whose last frame is cut by the FIN (outside the statement)
-               <<"model:truncated-end", Open(e) => \A s \in Trunc(e) \cap S : Ends(NO[s]) = Ends(NC[s])>> >>
+               \* the end of a stream whose last frame is cut by the FIN: the peer is in error (RFC 9114 7.1), but
+               \* the statement makes no exception - the events still depend only on the bytes of the stream
+               <<"independent:end-of-stream-cut-mid-frame", Open(e) => \A s \in Trunc(e) \cap S : Ends(NO[s]) = Ends(NC[s])>> >>
 
 TInit == l = 1 /\ Init
 TNext == Judge(Clauses) /\ UNCHANGED vars
